@@ -65,6 +65,10 @@ pub fn install_quiet_panic_hook() {
         } else {
             "panic".to_string()
         };
+        // a panic in the harness's own sources is a tool error: say where
+        if loc.starts_with("src/") && !loc.starts_with("src/dec.rs") {
+            eprintln!("vh: panic at {loc}: {msg}");
+        }
         LAST_PANIC.with(|p| *p.borrow_mut() = format!("{loc}: {msg}"));
     }));
 }
